@@ -15,7 +15,8 @@ TECHNIQUE = ('bounded-exhaustive enumeration: every family x kind x implementati
              'subnormal/just-out-of-float32-range, str, bytes of length 0..8, None, tuples, Decimal, '
              'Fraction, default-comparison objects) offered as key and as value to an empty, a one-leaf '
              'and a three-level container; an independent classifier says whether the datum is '
-             'representable; plus lookups of every zoo item')
+             'representable; plus lookups of every zoo item; '
+             'stored data are read back by look-up AND through enumeration (listing, order, minKey / maxKey)')
 RULE = ('a point is (family, kind, implementation, container state, entry point, role, zoo item).  '
         'Non-trivial: a boundary value (+-1 of a type limit) or a non-int type offered to a multi-leaf '
         'container.  Points are distinct by construction.')
